@@ -105,6 +105,8 @@ def build_scores(s, which):
         if which == cls:
             return np.asarray(vals, dtype=int if kind == "int" else np.float32)
         return np.asarray(vals, dtype=float)
+    if c == "swapped":  # the same values in non-native byte order (as read from a binary file)
+        return np.asarray(vals, dtype=np.dtype(int if s["mode"] == "int" else float).newbyteorder("S"))
     if c in ("int8", "int16", "int32"):  # narrow signed integers (values generated inside the range)
         return np.asarray(vals, dtype=c)
     if c == "list":
